@@ -10,6 +10,7 @@ spec["skeletons"] = [ [file, function, [watched call names], [watched condition 
     skeleton literally, so a dropped / reordered / re-guarded write breaks a proof.  `for (...)` headers mentioning
     a watched substring are recorded like conditions; the optional fifth element lists regexes of statements that
     are recorded too (text with blanks removed), e.g. the index resets of a block-list walk.
+spec["pattern_census"] = [ [[files], regex, gallina-name], ... ]   same, for every match of an arbitrary regex
 spec["assign_census"] = [ [[files], lvalue-regex, gallina-name], ... ]
     -> Definition <name> : list string = "function: statement" for EVERY assignment / increment of the lvalue in
     the listed files (comments stripped, not preprocessed), in textual order.  A theorem that depends on "these are
@@ -89,9 +90,11 @@ def emit(repo, spec, H):
         items = "; ".join('"%s"' % t.replace('"', "'") for t in toks)
         out.append("(* %s: %s -- ordered skeleton of watched calls / conditions *)" % (f, fn))
         out.append("Definition %s_skel : list string :=\n  [%s]." % (fn, items))
-    for files, lv, name in spec.get("assign_census", []):
+    census = [(files, None, lv, name) for files, lv, name in spec.get("assign_census", [])] + \
+             [(files, pat, pat, name) for files, pat, name in spec.get("pattern_census", [])]
+    for files, rawpat, lv, name in census:
         items = []
-        rx = re.compile(r"(?:\+\+|--)\s*\(?\s*%s\s*\)?|%s\s*(?:\+\+|--)|%s\s*(?:[-+*/|&^]|<<|>>)?=(?!=)[^;]*" % (lv, lv, lv))
+        rx = re.compile(rawpat) if rawpat else re.compile(r"(?:\+\+|--)\s*\(?\s*%s\s*\)?|%s\s*(?:\+\+|--)|%s\s*(?:[-+*/|&^]|<<|>>)?=(?!=)[^;]*" % (lv, lv, lv))
         for f in files:
             txt = H.raw(repo, f)
             # top-level function bodies
@@ -114,7 +117,8 @@ def emit(repo, spec, H):
             for fname, a, b in spans:
                 for m in rx.finditer(txt, a, b):
                     items.append("%s: %s" % (fname, re.sub(r"\s+", "", m.group(0))))
-        out.append("(* every assignment to %s in %s *)" % (lv.replace("\\", ""), ", ".join(files)))
+        out.append("(* every %s %s in %s *)" % ("occurrence of" if rawpat else "assignment to",
+                                                  lv.replace("\\", "").replace("*)", "* )").replace("(*", "( *"), ", ".join(files)))
         out.append("Definition %s : list string :=\n  [%s]." % (name, ";\n   ".join('"%s"' % t.replace('"', "'") for t in items)))
     if spec.get("skeletons"):
         out.append("Local Close Scope string_scope.")
